@@ -12,7 +12,7 @@ import (
 )
 
 func init() {
-	register("C14", "Decides the lockset discipline that is a necessary condition of race freedom, for all interleavings at once: (R14.1) for every driver whose GetDriverInfo reports SupportsParallel, each receiver field (or sub-object) touched in both the SendProbe call tree and the ReceiveProbe call tree with at least one write is accessed everywhere under a common mutex or has a sync/atomic type, and the parallel engine refuses drivers that do not report SupportsParallel before it spawns; (R14.2) every variable captured by goroutine closures (go / errgroup.Go) that is written by one goroutine instance and accessed by another instance, another closure or the spawner is accessed under a common mutex, before the spawn, or after the Wait join; (R14.3) the identifier allocators are single atomic read-modify-write operations; (R14.4) each driver instance owns freshly allocated parser, buffer and probe table and the per-run configs are constructed inside the per-run function. Happens-before edges recognised: goroutine start, WaitGroup/errgroup Wait, mutexes, atomics. Races inside third-party code and through aliasing (no pointer analysis is available) are not decided. A type-keyed complement covers fields of module structs reached through pointers (two access paths that may name one object), and an access in the spawning loop's body counts as 'before the spawn' only for variables allocated afresh in that iteration. Spawn sites include sync.WaitGroup.Go; a spawner's access is ordered only against the goroutines that touch the same object.", runC14)
+	register("C14", "Decides the lockset discipline that is a necessary condition of race freedom, for all interleavings at once: (R14.1) for every driver whose GetDriverInfo reports SupportsParallel, each receiver field (or sub-object) touched in both the SendProbe call tree and the ReceiveProbe call tree with at least one write is accessed everywhere under a common mutex or has a sync/atomic type, and the parallel engine refuses drivers that do not report SupportsParallel before it spawns; (R14.2) every variable captured by goroutine closures (go / errgroup.Go) that is written by one goroutine instance and accessed by another instance, another closure or the spawner is accessed under a common mutex, before the spawn, or after the Wait join; (R14.3) the identifier allocators are single atomic read-modify-write operations; (R14.4) each driver instance owns freshly allocated parser, buffer and probe table and the per-run configs are constructed inside the per-run function. Happens-before edges recognised: goroutine start, WaitGroup/errgroup Wait, mutexes, atomics. Races inside third-party code and through aliasing (no pointer analysis is available) are not decided. A type-keyed complement covers fields of module structs reached through pointers (two access paths that may name one object), and an access in the spawning loop's body counts as 'before the spawn' only for variables allocated afresh in that iteration. Spawn sites include sync.WaitGroup.Go; a spawner's access is ordered only against the goroutines that touch the same object. (R14.5) What cache.GetWithExpiration hands back is shared by all callers and is only read, never assigned through (shared with C18).", runC14)
 	darwinRules["C14"] = runC14
 }
 
